@@ -92,6 +92,7 @@ Fault ==
           \cup {Ev(k, RootName, <<>>, f) : k \in {"Start", "Empty"}, f \in {"name", "attr", "key"}} :
         /\ (ev.kind = "End" => Depth = 1)        \* a stray end tag (reader configured not to check end names)
         /\ (ev.kind = "Eof" => Depth > 1)        \* input ends inside an element
+        /\ (ev.kind = "Text" => ~LastIsText)     \* the reader never reports two adjacent Text events
         /\ Step(ev) /\ Record(ev)
   /\ nfault' = 1 /\ UNCHANGED <<nocc, ntext, nign, ncalls>>
 
@@ -137,6 +138,16 @@ Verdict ==
      LET c == LastCall
      IN /\ (result.st = "err") <=> (HasFaultEvent(c) \/ (c.op = "parse" /\ ~HasElement(c)))
         /\ (result.st = "err" /\ ~HasFaultEvent(c)) => result.kind = "Parsing"
+
+\* C06 on the reference itself: the schema the documents determine does not depend on their order, is
+\* unchanged by supplying documents twice, and grows monotonically along every prefix
+AlgebraInv ==
+  (ReturnedOk /\ InDomain /\ Roots # <<>>) =>
+     LET R == Roots
+         n == Len(R)
+     IN /\ \A p \in Perms(R) : SameModuloOrder(TyOf([i \in 1..n |-> R[p[i]]]), TyOf(R))
+        /\ SameModuloOrder(TyOf(R \o R), TyOf(R))
+        /\ \A k \in 1..n : Mono(TyOf(SubSeq(R, 1, k)), TyOf(R))
 
 \* every returned state is a replay case: the calls with their events, and the predicted result of the last call
 EmitCase ==
